@@ -762,6 +762,10 @@ func (f *File) Truncate(size int64) error {
 		return os.ErrPermission
 	}
 
+	if size < 0 {
+		return os.ErrInvalid
+	}
+
 	f.ioLock.Lock()
 	defer f.ioLock.Unlock()
 
